@@ -3,9 +3,9 @@
 # and the demonstration (demo.rs as an integration test) fails with it and passes without it.
 #   tools/confirmseed.sh <seed-id>      -> writes seeded/<id>/confirmation.txt
 set -u
-ID=$1; D=/verif/seeded/$ID; WT=/tmp/confirm_$ID
+ID=$1; D=/verif/seeded/$ID; WT=/tmp/confirm_wt; export CARGO_TARGET_DIR=/tmp/confirm_target
 OUT=$D/confirmation.txt
-rm -rf $WT; git -C /repo worktree add --detach $WT HEAD >/dev/null 2>&1 || { echo "worktree failed"; exit 2; }
+git -C /repo worktree remove --force $WT >/dev/null 2>&1; rm -rf $WT; git -C /repo worktree add --detach $WT HEAD >/dev/null 2>&1 || { echo "worktree failed"; exit 2; }
 {
 echo "confirmation of $ID at /repo $(git -C /repo rev-parse --short HEAD) on $(date -u +%FT%TZ)"
 cd $WT
